@@ -28,6 +28,7 @@ func c11Oracle(pc progCase, r *Result) {
 	r.Outcome("vm:" + ov.Class)
 	r.Distinct("vm|" + ov.Key())
 	if class, detail := compareRef(ref, ov, true); class != "" {
+		class = refineArgOrder(class, pc, ref, ov, true)
 		r.Fail(class, append([]string{"backend:vm"}, tags...), pc.P.Text, detail)
 	}
 	ot := RunTree(a, defaultOpts())
